@@ -306,6 +306,18 @@ class Job:
                     if not out["ok"]:
                         return {"status": "violated", "replay": {"fn": replay, "inputs": out.get("inputs", fvals)},
                                 "detail": out.get("detail", "")}
+                # hybrid points: a fallback point with the inputs that the path condition *pins* (c == 0, a unit tag, ...) taken
+                # from the model -- a special-case branch is reproduced at a realistic point of that branch
+                if fallback:
+                    pinned = self._pinned(s, inputs, vals)
+                    for fb in (list(fallback)[:2] if pinned else ()):
+                        fvals = dict(static)
+                        fvals.update(fb)
+                        fvals.update(pinned)
+                        out = run_replay(replay, fvals)
+                        if not out["ok"]:
+                            return {"status": "violated", "replay": {"fn": replay, "inputs": out.get("inputs", fvals)},
+                                    "detail": out.get("detail", "")}
             # ask for a different model: move one input away from its current value (short budget)
             if not inputs:
                 break
@@ -322,6 +334,35 @@ class Job:
         return {"status": "inconclusive",
                 "detail": "sat in the abstraction but not reproduced on the real code (%d models tried): %s"
                           % (len(tried), tried[0]["outcome"])}
+
+    def _pinned(self, s, inputs, vals, limit=12):
+        """inputs whose value is forced by the asserted conditions (term != model value is unsat); 1 s per input"""
+        out = {}
+        n = 0
+        for k, term in (inputs or {}).items():
+            if not isinstance(term, z3.ExprRef) or vals.get(k) is None or symx.is_num(term) or n >= limit:
+                continue
+            n += 1
+            try:
+                mv = s.model().eval(term, model_completion=True)
+                s.push()
+                s.set("timeout", 1000)
+                s.add(term != mv)
+                r = s.check()
+                s.pop()
+                if r == z3.unsat:
+                    out[k] = vals[k]
+                # restore a model for the caller
+            except Exception:
+                try:
+                    s.pop()
+                except Exception:
+                    pass
+        if n:
+            s.set("timeout", 3000)
+            if s.check() != z3.sat:
+                return {}
+        return out
 
     def _collect(self, replay, points):
         """real-code questions this job would replay (function + fixed inputs): exported so that tools/mkbattery.py can assemble the
@@ -468,6 +509,16 @@ class Job:
         if r == z3.unsat:
             self.vacuity["failed"].append(what)
         return r
+
+    @staticmethod
+    def on_path(leaf, env, funcs=None):
+        """does a translator-validation point follow this leaf's path?  (a leaf of a special-case branch is not validated
+        at a point outside that branch)"""
+        from . import terms
+        try:
+            return all(terms.evaluate(c, env, funcs) for c in leaf.pc)
+        except Exception:
+            return False
 
     def validated(self, what, ok, detail=""):
         """translator validation: real code on floats vs numeric value of the symbolic term"""
